@@ -27,9 +27,9 @@ import (
 	"github.com/tigerwill90/fox"
 )
 
-const rule = "cases = (panic value in 13 kinds incl. wrapped http.ErrAbortHandler and net.OpError variants) x (response progress: nothing, informational header, final header, partial body, flushed, one chunk streamed through ReadFrom / io.Copy from a source that then panics) x (handler kind: route, inner route middleware, route reached by ignoring a trailing slash, no-route, no-method, options) " +
+const rule = "cases = (panic value in 13 kinds incl. wrapped http.ErrAbortHandler and net.OpError variants) x (response progress: nothing, informational header, final header, 101, partial body, flushed, one chunk streamed through ReadFrom / io.Copy from a source that then panics) x (handler kind: route, inner route middleware, route reached by ignoring a trailing slash, no-route, no-method, options) " +
 	"x (credential header names in canonical, lower-case, upper-case and mixed capitalisation set directly in the header map, plus ordinary headers); the product is enumerated completely; " +
-	"plus a panic after every step of Updates and View functions, and panics raised by middleware constructors during 8 write entry points; distinct by the tuple; non-trivial always"
+	"plus panics inside Updates and View functions after every prefix of a base sequence, after every single step and after every ordered pair of the steps that add, empty or remove method roots, and panics raised by middleware constructors during 8 write entry points; distinct by the tuple; non-trivial always"
 
 type capture struct {
 	mu   sync.Mutex
@@ -107,7 +107,7 @@ var values = []pv{
 	{"net.OpError without syscall error", func() any { return &net.OpError{Op: "read", Net: "tcp", Err: errors.New("broken pipe")} }, false, false},
 }
 
-var progress = []string{"nothing", "informational", "header", "partial-body", "flushed", "streamed-readfrom", "streamed-iocopy"}
+var progress = []string{"nothing", "informational", "header", "header-101", "partial-body", "flushed", "streamed-readfrom", "streamed-iocopy"}
 var kinds = []string{"route", "route-middleware", "route-ignored-slash", "noroute", "nomethod", "options"}
 
 var sensitive = []string{"Authorization", "Proxy-Authorization", "Cookie", "Set-Cookie", "X-CSRF-Token", "X-Vault-Token"}
@@ -139,6 +139,8 @@ func doPanic(c fox.Context) {
 		c.Writer().WriteHeader(103)
 	case "header":
 		c.Writer().WriteHeader(202)
+	case "header-101":
+		c.Writer().WriteHeader(101) // switching protocols: a final status although it is in the 1xx class
 	case "partial-body":
 		c.Writer().WriteHeader(202)
 		_, _ = c.Writer().Write([]byte("partial"))
@@ -273,13 +275,13 @@ func one(run *kit.Run, f *fox.Router, cap *capture, v pv, pr, kind, hname, secre
 		fail("escaped", "a panic escaped ServeHTTP: %v", escaped)
 	}
 	// client-visible result
-	sent := map[string]string{"nothing": "", "informational": "header 103", "header": "header 202", "partial-body": `header 202; body "partial"`, "flushed": "header 200; flush", "streamed-readfrom": `header 200; body "partial"`, "streamed-iocopy": `header 200; body "partial"`}[pr]
+	sent := map[string]string{"nothing": "", "informational": "header 103", "header": "header 202", "header-101": "header 101", "partial-body": `header 202; body "partial"`, "flushed": "header 200; flush", "streamed-readfrom": `header 200; body "partial"`, "streamed-iocopy": `header 200; body "partial"`}[pr]
 	switch {
 	case v.abort:
 		if log != sent {
 			fail("response", "after re-raising the abort the response must be left as the handler left it (%q), the underlying writer saw %q", sent, log)
 		}
-	case pr == "header" || pr == "partial-body" || pr == "flushed" || pr == "streamed-readfrom" || pr == "streamed-iocopy":
+	case pr == "header" || pr == "header-101" || pr == "partial-body" || pr == "flushed" || pr == "streamed-readfrom" || pr == "streamed-iocopy":
 		if log != sent {
 			fail("response", "the response had been started (%q) and must be left untouched, the underlying writer saw %q", sent, log)
 		}
@@ -446,41 +448,99 @@ func writePanics(run *kit.Run) {
 }
 
 // txnPanics: a panic after every step of an Updates or View function propagates, changes nothing and releases the lock.
+// Programs: every prefix of a base sequence, every step alone (so that each kind of write is also the FIRST write of
+// its transaction), and every ordered pair of the steps that add, empty or remove method roots.
 func txnPanics(run *kit.Run) {
 	f, _ := fox.New()
 	h := func(fox.Context) {}
 	for _, p := range []string{"/a", "/a/{b}", "/c/*{d}", "h.com/x", "/foo/bar", "/foo/baz/{id}", "/s/b", "/s/c", "/s/d"} {
 		f.MustHandle("GET", p, h)
 	}
-	steps := []func(t *fox.Txn){
+	// custom verbs, registered in this order (their roots follow the four common ones)
+	f.MustHandle("TRACE", "/t", h)
+	f.MustHandle("FOO", "/x", h)
+	f.MustHandle("PATCH", "/z", h)
+	f.MustHandle("PATCH", "/z/{q}", h)
+	type step struct {
+		name string
+		do   func(t *fox.Txn)
+	}
+	base := []step{
 		// a pattern that is exactly an existing branching node, then writes below it and next to existing siblings
-		func(t *fox.Txn) { _, _ = t.Handle("GET", "/foo/ba", h) },
-		func(t *fox.Txn) { _, _ = t.Update("GET", "/foo/bar", h) },
-		func(t *fox.Txn) { _, _ = t.Handle("GET", "/foo/baz/{id}/x", h) },
-		func(t *fox.Txn) { _, _ = t.Handle("GET", "/s/a", h) },
-		func(t *fox.Txn) { _, _ = t.Handle("GET", "/new/{x}", h) },
-		func(t *fox.Txn) { _, _ = t.Update("GET", "/a", h) },
-		func(t *fox.Txn) { _, _ = t.Delete("GET", "/c/*{d}") },
-		func(t *fox.Txn) { _ = t.Iter() },
-		func(t *fox.Txn) { _ = t.Snapshot() },
-		func(t *fox.Txn) { _ = t.Truncate("GET") },
+		{"Handle /foo/ba", func(t *fox.Txn) { _, _ = t.Handle("GET", "/foo/ba", h) }},
+		{"Update /foo/bar", func(t *fox.Txn) { _, _ = t.Update("GET", "/foo/bar", h) }},
+		{"Handle /foo/baz/{id}/x", func(t *fox.Txn) { _, _ = t.Handle("GET", "/foo/baz/{id}/x", h) }},
+		{"Handle /s/a", func(t *fox.Txn) { _, _ = t.Handle("GET", "/s/a", h) }},
+		{"Handle /new/{x}", func(t *fox.Txn) { _, _ = t.Handle("GET", "/new/{x}", h) }},
+		{"Update /a", func(t *fox.Txn) { _, _ = t.Update("GET", "/a", h) }},
+		{"Delete /c/*{d}", func(t *fox.Txn) { _, _ = t.Delete("GET", "/c/*{d}") }},
+		{"Iter", func(t *fox.Txn) { _ = t.Iter() }},
+		{"Snapshot", func(t *fox.Txn) { _ = t.Snapshot() }},
+		{"Truncate GET", func(t *fox.Txn) { _ = t.Truncate("GET") }},
+	}
+	roots := []step{
+		{"Truncate TRACE,FOO", func(t *fox.Txn) { _ = t.Truncate("TRACE", "FOO") }},
+		{"Truncate FOO", func(t *fox.Txn) { _ = t.Truncate("FOO") }},
+		{"Truncate PATCH,GET", func(t *fox.Txn) { _ = t.Truncate("PATCH", "GET") }},
+		{"Truncate all", func(t *fox.Txn) { _ = t.Truncate() }},
+		{"Delete TRACE /t (its last route)", func(t *fox.Txn) { _, _ = t.Delete("TRACE", "/t") }},
+		{"Delete FOO /x (its last route)", func(t *fox.Txn) { _, _ = t.Delete("FOO", "/x") }},
+		{"Handle BAR /new (new verb)", func(t *fox.Txn) { _, _ = t.Handle("BAR", "/new", h) }},
+		{"Handle PATCH /z/new", func(t *fox.Txn) { _, _ = t.Handle("PATCH", "/z/new", h) }},
+		{"Update PATCH /z", func(t *fox.Txn) { _, _ = t.Update("PATCH", "/z", h) }},
+		{"Handle PUT /first (first route of a common verb)", func(t *fox.Txn) { _, _ = t.Handle("PUT", "/first", h) }},
+	}
+	type program struct {
+		name  string
+		steps []step
+	}
+	var programs []program
+	for k := 0; k <= len(base); k++ {
+		programs = append(programs, program{fmt.Sprintf("first %d base steps", k), base[:k]})
+	}
+	for _, s := range append(append([]step(nil), base...), roots...) {
+		programs = append(programs, program{"only: " + s.name, []step{s}})
+	}
+	for _, a := range roots {
+		for _, b := range roots {
+			if a.name != b.name {
+				programs = append(programs, program{a.name + "; " + b.name, []step{a, b}})
+			}
+		}
+	}
+	probe := func() (fp string, panicked any) {
+		defer func() { panicked = recover() }()
+		fp = fox.VerifFingerprint(f.Iter())
+		// every method still answers requests, 404/405/OPTIONS scans included
+		for _, m := range []string{"GET", "POST", "TRACE", "FOO", "PATCH", "BAR", "OPTIONS"} {
+			for _, p := range []string{"/a", "/t", "/x", "/z", "/z/1", "/nope"} {
+				f.ServeHTTP(&under{h: http.Header{}}, &http.Request{Method: m, URL: &url.URL{Path: p}, Header: http.Header{}, Proto: "HTTP/1.1", ProtoMajor: 1, ProtoMinor: 1})
+			}
+		}
+		for range f.Iter().Methods() {
+		}
+		return fp, nil
 	}
 	for _, managed := range []string{"Updates", "View"} {
-		for k := 0; k <= len(steps); k++ {
-			for _, v := range values {
-				if v.make == nil {
-					continue
+		for pi, prog := range programs {
+			for vi, v := range values {
+				if v.make == nil || (pi > len(base) && vi > 1) {
+					continue // every value for the prefixes, two values for the larger families
 				}
-				id := fmt.Sprintf("txn|%s|after-step-%d|%s", managed, k, v.name)
+				id := fmt.Sprintf("txn|%s|%s|%s", managed, prog.name, v.name)
 				run.Case(id, true)
-				before := fox.VerifFingerprint(f.Iter())
+				before, p0 := probe()
+				if p0 != nil {
+					run.Violate("txn-panic-unusable|"+id, fmt.Sprintf("before %s the router panics on reads: %v", id, p0), nil)
+					return
+				}
 				raised := v.make()
 				var escaped any
 				func() {
 					defer func() { escaped = recover() }()
 					fn := func(t *fox.Txn) error {
-						for _, s := range steps[:k] {
-							s(t)
+						for _, s := range prog.steps {
+							s.do(t)
 						}
 						panic(raised)
 					}
@@ -491,14 +551,19 @@ func txnPanics(run *kit.Run) {
 					}
 				}()
 				if escaped != raised {
-					run.Violate("txn-panic-lost|"+id, fmt.Sprintf("a panic inside %s (after %d steps, value %s) reached the caller as %v instead of the value raised", managed, k, v.name, escaped), nil)
+					run.Violate("txn-panic-lost|"+id, fmt.Sprintf("a panic inside %s (program: %s; value %s) reached the caller as %v instead of the value raised", managed, prog.name, v.name, escaped), nil)
 				}
-				if fox.VerifFingerprint(f.Iter()) != before {
-					run.Violate("txn-panic-commits|"+id, fmt.Sprintf("a panic inside %s after %d steps left visible changes", managed, k), nil)
+				after, p1 := probe()
+				if p1 != nil {
+					run.Violate("txn-panic-unusable|"+id, fmt.Sprintf("after a panic inside %s (program: %s) the router panics when it is read or serves requests: %v", managed, prog.name, p1), nil)
+					return
+				}
+				if after != before {
+					run.Violate("txn-panic-commits|"+id, fmt.Sprintf("a panic inside %s (program: %s) left visible changes", managed, prog.name), nil)
 				}
 				if !kit.Completes(20*time.Second, func() { _, _ = f.Update("GET", "/a", h) }) {
-					if g := kit.BlockedOnMutex(kit.AllStacks(), "txnWith", "(*Router).Update"); g != "" {
-						run.Violate("txn-panic-lock|"+id, fmt.Sprintf("the writer lock is still held after a panic inside %s (after %d steps)\n%s", managed, k, kit.TrimStack(g)), nil)
+					if g := kit.BlockedOnMutex(kit.AllStacks(), "github.com/tigerwill90/fox."); g != "" {
+						run.Violate("txn-panic-lock|"+id, fmt.Sprintf("the writer lock is still held after a panic inside %s (program: %s)\n%s", managed, prog.name, kit.TrimStack(g)), nil)
 					} else {
 						run.Inconclusive("write after txn panic did not finish within the watchdog (%s)", id)
 					}
@@ -507,6 +572,7 @@ func txnPanics(run *kit.Run) {
 			}
 		}
 	}
+	run.Count("txn_panic_programs", int64(len(programs)))
 }
 
 // concurrentPanics: containment is per request. Many goroutines panic at the same time, each with its own value, path,
